@@ -50,6 +50,9 @@ POOL = [
     "w(X, X, Y) :- Y = [A, B, C|D], v(A), v(B), v(C), v(D).\n",
     "m(X) :- X = [A, B, C], v(A), v(B), k([D, E]), v(C), v(E), v(D).\n",
     "c1(X) :- (a(X) -> b(X) ; c(X)).\nc2(X) :- \\+ a(X), (b(X) -> true ; c(X)).\n",
+    # terms whose PRINTED form coincides although they differ (quoting, _ vs x1): a cache keyed by text would confuse them
+    "pl(_, P) :- q(P, f(_, 'a,b'), nm('Name')).\n",
+    "pl(x1, P) :- q(P, f(x1, a, b), nm(Name)).\n",
     # refused by the code generator (clause too large) after an if-then-else: state that leaks from an aborted compilation shows up next
     "c3(X) :- (a(X) -> b(X) ; c(X)).\nbig :- " + ", ".join(["q"] * 21) + ".\n",
 ]
@@ -222,6 +225,25 @@ def make_body_b(info):
         if after != alone:
             ch.note(info, 'compiling program %d after program %d gives different text than compiling it first', pi, qi)
             return ch.VIOLATED
+        with NoTracing():
+            # one options object reused: the output follows the options as they are at each call
+            class O:
+                debug_filename = True
+                debug_parser = False
+                debug_generator = False
+                current_source_file = 'first.prolog'
+                outf = None
+            try:
+                o1 = compiler.compile_prolog_from_string(POOL[pi], O)
+                O.current_source_file = 'second.prolog'
+                o2 = compiler.compile_prolog_from_string(POOL[pi], O)
+                O.debug_filename = False
+                o3 = compiler.compile_prolog_from_string(POOL[pi], O)
+            except compiler.CompilerError:
+                o1 = o2 = o3 = None
+            if o1 is not None and (o2 != o1.replace('first.prolog', 'second.prolog') or 'second.prolog' not in o2 or o3 != alone):
+                info['reason'] = 'compiling the same text again with a changed options object returns stale output'
+                return ch.VIOLATED
         if snap != snap2:
             ch.note(info, 'module-level state of the compiler changed during compilation')
             return ch.VIOLATED
